@@ -147,6 +147,31 @@ pub fn check_term(s: &mut Sess, rep: &mut Report, t: RegLan, k: usize, words: &[
         }
     }
 
+    // sampled full-alphabet sweep: EVERY character's derivative is the derivative of its class (same object)
+    let sweep_one_in = if s.thorough { 12 } else { 120 };
+    if s.rng.usize(sweep_one_in) == 0 {
+        let mut class_terms: Vec<Option<RegLan>> = vec![None; n + 1];
+        let mut ok = true;
+        for c in 0..=MAXC {
+            let idx = class_by_scan(&ranges, c).unwrap_or(n);
+            let d = s.m.char_derivative(t, c);
+            match class_terms[idx] {
+                None => class_terms[idx] = Some(d),
+                Some(x) => {
+                    if !std::ptr::eq(x, d) {
+                        s.viol(rep, "class-uniformity", "class-uniformity:sweep", format!("full sweep of {}: character {:x} has derivative {} but another character of its class has {}", term_text(t), c, term_text(d), term_text(x)), k);
+                        ok = false;
+                        break;
+                    }
+                }
+            }
+        }
+        if ok {
+            rep.inc("full_alphabet_sweeps");
+            rep.count("full_alphabet_sweep_probes", MAXC as u64 + 1);
+        }
+    }
+
     // invalid class ids are rejected with BadClassId
     let mut bad = vec![ClassId::Interval(n), ClassId::Interval(n + 1 + s.rng.usize(5)), ClassId::Interval(usize::MAX)];
     if !comp_nonempty {
